@@ -85,10 +85,11 @@ CHECKS = {
     ),
     "C15": dict(
         level="model_checking",
-        rule="parent scope(2) x all rule sets of 1 and 2 rules over resource(2: namespaced, cluster-scoped) x selection(10: none, empty selector, matchLabels, matchExpressions, namespace own/foreign, names, namespace+names, two invalid mixes) = 840 sets, against 6 related objects across two namespaces and cluster scope; "
+        rule="parent scope(2) x all rule sets of 1 and 2 rules over resource(2: namespaced, cluster-scoped) x selection(10: none, empty selector, matchLabels, matchExpressions, namespace own/foreign, names, namespace+names, two invalid mixes) = 840 sets, against 7 related objects across two namespaces and cluster scope, each also with a second hosted controller (own customize hook, other rules) looking at the same parent first, for composite and decorator controllers; "
              "each case: sync, cached re-sync, a change of every related object, a parent generation change, finalize",
         units=[
             dict(pkg=COMPOSITE, test="TestVerifC15", shards=dict(quick=4, thorough=8), budget=dict(quick=300, thorough=600)),
+            dict(pkg=DECORATOR, test="TestVerifC15", shards=dict(quick=4, thorough=8), budget=dict(quick=300, thorough=600)),
         ],
         assumptions=SIM_ASSUMPTIONS,
     ),
